@@ -262,6 +262,11 @@ func runC05(ctx *harness.Ctx) {
 		e := es[rapid.IntRange(0, len(es)-1).Draw(t, "entry")]
 		one(t, "mutant", e, src)
 	})
+	ctx.Rapid("clause-permutations", ctx.Pick(2500, 50000), func(t *rapid.T) {
+		src, kind := drawClausePermutation(t)
+		es := entriesForKind(kind)
+		one(t, "clause-permutations", es[rapid.IntRange(0, len(es)-1).Draw(t, "entry")], src)
+	})
 	ctx.Rapid("unbalanced", ctx.Pick(3000, 50000), func(t *rapid.T) {
 		n := rapid.IntRange(1, 14).Draw(t, "n")
 		var b strings.Builder
@@ -485,6 +490,13 @@ func runC06(ctx *harness.Ctx) {
 		}
 		src := mutate.Tokens(t, s.Src, 1)
 		one(t, "mutant", specificEntry(s.Kind), src)
+	})
+	ctx.Rapid("clause-permutations", ctx.Pick(4000, 60000), func(t *rapid.T) {
+		src, kind := drawClausePermutation(t)
+		if len(src) > 600 {
+			return
+		}
+		one(t, "clause-permutations", specificEntry(kind), src)
 	})
 	var pl []any
 	for k := range pairs {
